@@ -223,3 +223,13 @@ impl Stats {
                "rule": rule, "exhaustive": exhaustive, "counters": self.counters})
     }
 }
+
+/// run `f` with the heap meter temporarily disarmed (harness bookkeeping inside a metered region)
+pub fn unmetered<R>(f: impl FnOnce() -> R) -> R {
+    let was = ARMED.with(|a| a.replace(false));
+    let cur = CUR.with(|c| c.get());
+    let r = f();
+    CUR.with(|c| c.set(cur));
+    ARMED.with(|a| a.set(was));
+    r
+}
